@@ -1,0 +1,16 @@
+//go:build verif
+
+// Contracts for the deductive verifier in /verif (icsvc). Comment-only: this file contributes no code.
+
+package consumer
+
+// ---------------------------------------------------------------- C01 / C12: the consumer's end-blocker hands exactly the pending changes to consensus
+
+//@ func AppModule.EndBlock
+//@ requires am.keeper != nil
+//@ let pend := old(am.keeper.GetPendingChanges(goCtx))
+//@ ensures [pre-ccv] old(am.keeper.IsPreCCV(goCtx)) ==> $ChangeoverToConsumer.called && result1 == nil && !$ApplyCCValidatorChanges.called
+//@ ensures [rewards-then-packets] !old(am.keeper.IsPreCCV(goCtx)) ==> $EndBlockRD.called && $SendPackets.called
+//@ ensures [nothing-pending] !old(am.keeper.IsPreCCV(goCtx)) && $GetPendingChanges.called && !$GetPendingChanges.ret1 ==> result1 == nil && len(result0) == 0 && !$ApplyCCValidatorChanges.called
+//@ ensures [applies-pending] !old(am.keeper.IsPreCCV(goCtx)) && $GetPendingChanges.called && $GetPendingChanges.ret1 ==> $ApplyCCValidatorChanges.called && $ApplyCCValidatorChanges.changes == $GetPendingChanges.ret0.ValidatorUpdates && result0 == $ApplyCCValidatorChanges.ret && result1 == nil && $DeletePendingChanges.called
+//@ ensures [pending-consumed] !old(am.keeper.IsPreCCV(goCtx)) && $GetPendingChanges.called && $GetPendingChanges.ret1 ==> !am.keeper.GetPendingChanges(goCtx).1
